@@ -49,7 +49,7 @@ def outcome(reply):
 
 
 ALL_MODES = ["ok", "ok", "unused", "invalid-vector", "duplicate", "rc-duplicate", "palindrome", "missing",
-             "invalid-module", "fault", "fault-vector", "same-object", "bad-citation"]
+             "invalid-module", "illegal-module", "fault", "fault-vector", "same-object", "bad-citation"]
 
 
 def perturb(rng, case, info, modes=None):
@@ -92,6 +92,22 @@ def perturb(rng, case, info, modes=None):
     elif mode == "invalid-module":
         i = rng.randrange(len(mods))
         mods[i] = dict(mods[i], word=gen.rnd(rng, 25))
+    elif mode == "illegal-module":
+        # a module with a third site of the enzyme inside its target: refused with IllegalSite, at every call
+        i = rng.randrange(len(mods))
+        m = mods[i]
+        md = info["mparts"][m["oid"] - 1] if 1 <= m["oid"] <= len(info["mparts"]) else None
+        w_ = m["word"]
+        key = (md["o5"] + md["t"]) if md else ""
+        p = (w_ + w_).upper().find(key.upper()) if key else -1
+        if 0 <= p < len(w_):
+            opened = (w_ + w_)[p:p + len(w_)]
+            cut = len(md["o5"]) + rng.randint(1, max(1, len(md["t"]) - 1))
+            w2 = opened[:cut] + rng.choice([enz.site, gen.rc(enz.site)]) + opened[cut:]
+            r_ = rng.randrange(len(w2))
+            mods[i] = dict(m, word=w2[r_:] + w2[:r_])
+        else:
+            mode = "ok"
     elif mode == "fault":
         i = rng.randrange(len(mods))
         mods[i] = dict(mods[i], faulty=True)
